@@ -250,7 +250,7 @@ func ruleSettingsEmit(c *Ctx, rule string) {
 			call, isCall := origin(v).(*ssa.Call)
 			good := false
 			if isCall {
-				if f := staticCallee(call); f != nil && w.inRoot(f) && strings.Contains(strings.ToLower(f.Name()), "revision") {
+				if w.isRoleCall(call, "supportedRevisions") {
 					good = true
 				}
 			}
@@ -331,7 +331,7 @@ func (c *Ctx) senderSendSites() []ssa.CallInstruction {
 			continue
 		}
 		allInstrs(fn, func(in ssa.Instruction) {
-			if call, ok := in.(ssa.CallInstruction); ok && call.Common().IsInvoke() && call.Common().Method.Name() == "send" {
+			if call, ok := in.(ssa.CallInstruction); ok && call.Common().IsInvoke() && call.Common().Method.Name() == c.W.mName("send") {
 				if _, ok := call.Common().Value.Type().Underlying().(*types.Interface); ok {
 					out = append(out, call)
 				}
@@ -440,7 +440,7 @@ func ruleContiguity(c *Ctx, rule string) {
 func (c *Ctx) senderImpls() []*ssa.Function {
 	var out []*ssa.Function
 	for _, fn := range c.W.Funcs {
-		if fn.Parent() == nil && fn.Name() == "send" && fn.Signature.Recv() != nil && !isGenericTemplate(fn) {
+		if fn.Parent() == nil && fn.Name() == c.W.mName("send") && fn.Signature.Recv() != nil && !isGenericTemplate(fn) {
 			out = append(out, fn)
 		}
 	}
@@ -664,7 +664,7 @@ func ruleCancelOnce(c *Ctx, rule string) {
 		c.check(!inLoop(pt.Block()), rule, key+": not in a loop", w.At(pt), "single emit", "cancel emit inside a loop")
 		// receiver cancel on the same path
 		rc := callsIn(pt.Parent(), func(ci ssa.CallInstruction) bool {
-			return ci.Common().IsInvoke() && ci.Common().Method.Name() == "cancel"
+			return ci.Common().IsInvoke() && ci.Common().Method.Name() == w.mName("cancel")
 		})
 		found := false
 		for _, r := range rc {
